@@ -123,10 +123,11 @@ def job(j):
         choices, cause = lst[0]
         mn, script, obs = shrink(cfg, choices, None, letters, conn_letters, clause)
         again = monitor(cfg, run_single(cfg, Ctx(mn), letters, conn_letters, fp=False))
-        if not any(c == clause for c, _ in again):
-            raise RuntimeError(f'non-deterministic failure: {cfg} {choices} {clause}')
         cell = f"{cfg['transport']}/ka={int(cfg['ka'])}"
         key = f"{clause}/{cell}/{cause_of(script)}"
+        if not any(c == clause for c, _ in again):
+            key = f"{clause}/{cell}/order-dependent"
+            cause = f'{cause}; ' + 'failed during exploration but not on a fresh replay: the outcome depends on earlier executions in the same process (state outside the objects under test leaks between executions)'
         out.append(dict(key=key, clause=clause, n=len(lst),
                         replay=dict(cfg=cfg, choices=mn, letters=letters, conn_letters=conn_letters),
                         detail=dict(script=script, cause=cause, result=obs.result[:3],
